@@ -127,6 +127,42 @@ def check(cx):
                        "old_version + 1 on a u8 without a range test: the 256th version of a row panics — and every "
                        "INSERT adds a version to the table's catalog row, so the 256th INSERT into any table panics (D12)")
 
+    # ---- C16.8 plan constants -------------------------------------------------------------------------------------------
+    r8 = cx.rule("C16.8", "PANIC: executors (runtime::ops) do no overflow-asserting arithmetic (+, -, *) on values read from plan-operator "
+                 "fields (sql::planner::physical::*): those are statement constants - LIMIT/OFFSET literals, which the parser "
+                 "saturates, and the usize::MAX `no limit` marker - so `offset + limit` panics in the worker (expected zero sites)")
+    n_ar, n_fn = 0, 0
+    for f in sorted(p.fns.values(), key=lambda x: x.id):
+        if not (f.id.startswith("runtime::ops") or f.id.startswith("<runtime::ops")):
+            continue
+        n_fn += 1
+        plan_reads = set()
+        for b in f.blocks:
+            for st in b["stmts"]:
+                ops_ = st["rv"].get("o") if isinstance(st["rv"].get("o"), list) else []
+                for o in ops_:
+                    pl = o.get("c") or o.get("m") or []
+                    if any(isinstance(pe, str) and ":sql::planner::physical::" in pe for pe in pl[1:]) and len(st["dst"]) == 1:
+                        ty = f.locals[st["dst"][0]]
+                        if ty in ("usize", "u64", "u32", "i64", "std::option::Option<usize>", "std::option::Option<u64>"):
+                            plan_reads.add(st["dst"][0])
+                if st["rv"].get("r") == "ref" and any(isinstance(pe, str) and ":sql::planner::physical::" in pe for pe in st["rv"]["p"][1:]) and len(st["dst"]) == 1:
+                    ty = f.locals[st["dst"][0]]
+                    if any(x in ty for x in ("usize", "u64", "Option<usize>")) and "Vec" not in ty and "Schema" not in ty:
+                        plan_reads.add(st["dst"][0])
+        if not plan_reads:
+            continue
+        for b in f.blocks:
+            for st in b["stmts"]:
+                rv = st["rv"]
+                if rv.get("r") == "bin" and rv["op"] in ("AddWithOverflow", "MulWithOverflow", "SubWithOverflow", "Add", "Mul", "Sub"):
+                    n_ar += 1
+                    tainted = [o for o in rv["o"] if op_local(o) is not None and (plan_reads & (f.dep_closure(op_local(o)) | {op_local(o)}))]
+                    if tainted:
+                        cx.bad(r8, "%s:%s" % (f.id, rv["op"]), f.where(), "%s computes %s on a value read from a plan operator field: a statement with "
+                               "OFFSET k and no LIMIT (limit = usize::MAX) or a huge LIMIT literal overflows and panics in the worker" % (f.id, rv["op"]))
+    cx.ok(r8, "census", "", "%d executor functions examined (%d arithmetic sites in those that read plan fields), none on plan constants" % (n_fn, n_ar))
+
     # ---- C16.4 recursion depth -----------------------------------------------------------------------------------
     r4 = cx.rule("C16.4", "PANIC: every recursion cycle among the Parser's methods passes through a method that calls the "
                  "depth guard on every success path (the guard compares the parser's depth field with a constant and "
@@ -255,3 +291,9 @@ def check(cx):
                "off-by-one there panics in TransactionCoordinator::abort, i.e. in the error path of every failing statement "
                "(the known finding D19 of C09.4 is about ids beyond the bitmap and is not a panic)", floor=3,
                skip=("drops-large-ids",))
+
+    # ---- C16.9 (construct shared with C07.4) -------------------------------------------------------------------------
+    from . import c07
+    cx.include(c07, {"C07.4"}, "C16.9", "shared with C07.4: what a failed statement leaves in a unique index is hidden by the snapshot-aware decoder "
+               "only; a probe that also consults raw tombstone predicates treats the residue of an aborted writer as a live claim, so "
+               "after the error the database no longer behaves as it did before the failing statement", floor=1)
